@@ -7,7 +7,7 @@ import typing
 from hypothesis import strategies as st
 
 from .. import wire
-from ..engine import Eval, Failure, Target, collecting, guard
+from ..engine import Eval, Failure, Guarded, Target, collecting, guard
 from ..values import BPInfo, norm, snap_bp, snap_ref, to_ref
 from . import _common as cm
 from ._corpus import corpus
